@@ -1276,6 +1276,30 @@ class Environment:
 ####################
 
 
+def _sub_jaxprs(v):
+    if isinstance(v, ClosedJaxpr):
+        yield v.jaxpr
+    elif isinstance(v, Jaxpr):
+        yield v
+    elif isinstance(v, (tuple, list)):
+        for x in v:
+            yield from _sub_jaxprs(x)
+
+
+def _find_unseeded_site(params):
+    """Parameters of the first sampling site found in the sub-Jaxprs of an equation."""
+    for v in params.values():
+        for sub in _sub_jaxprs(v):
+            for eqn in sub.eqns:
+                primitive, inner_params = PPPrimitive.unwrap(eqn.primitive)
+                if primitive in (sample_p, adev_sample_p):
+                    return inner_params
+                found = _find_unseeded_site(eqn.params)
+                if found is not None:
+                    return found
+    return None
+
+
 @dataclass
 class Seed:
     """Interpreter that eliminates probabilistic primitives with explicit randomness.
@@ -1394,6 +1418,13 @@ class Seed:
                 )
 
             else:
+                # An equation that `Seed` does not interpret (remat/checkpoint,
+                # custom_jvp/vjp calls, nested jit, while loops, ...) must not
+                # hide a sampling site: binding it would evaluate the site with
+                # hidden (global counter / baked-in) randomness.
+                unseeded = _find_unseeded_site(eqn.params)
+                if unseeded is not None:
+                    raise unseeded["lowering_exception"]
                 outvals = eqn.primitive.bind(*args, **params)
 
             if not eqn.primitive.multiple_results:
